@@ -2,6 +2,7 @@ package main
 
 import (
 	"bufio"
+	"bytes"
 	"fmt"
 	"go/scanner"
 	"go/token"
@@ -90,11 +91,15 @@ var contRe = regexp.MustCompile(`^//@(\s*)(.*)$`)
 
 // parseSpecFile reads //@ directives.
 func parseSpecFile(path string) (*SpecFile, error) {
-	f, err := os.Open(path)
+	b, err := os.ReadFile(path)
 	if err != nil {
 		return nil, err
 	}
-	defer f.Close()
+	return parseSpecSource(path, b)
+}
+
+func parseSpecSource(path string, src []byte) (*SpecFile, error) {
+	f := bytes.NewReader(src)
 	sf := &SpecFile{Path: path}
 	type dline struct {
 		text string
@@ -133,6 +138,10 @@ func parseSpecFile(path string) (*SpecFile, error) {
 	var lastLemma *Clause
 	for _, d := range ds {
 		word, rest := splitWord(d.text)
+		if word == "template" {
+			// contract templates for generated code: instantiated by gen.go, not contracts of this package
+			break
+		}
 		switch word {
 		case "property":
 			prop = strings.TrimSpace(rest)
@@ -492,7 +501,8 @@ var specBuiltins = map[string]string{
 	"isIntegral": "V_isIntegral", "isFinite": "V_isFinite", "toReal": "V_toReal", "hasPrefix": "V_hasPrefix", "hasSuffix": "V_hasSuffix",
 	"elemsfresh": "V_elemsfresh", "sameslice": "V_sameslice", "realOfInt": "V_realOfInt", "real": "V_real",
 	"rlt": "V_rlt", "rle": "V_rle", "req": "V_req", "isNaN": "V_isNaN", "fresherThan": "V_fresherThan",
-	"concat": "V_concat", "sliceprefix": "V_sliceprefix", "runeCount": "V_runeCount", "first": "V_first", "second": "V_second", "runeAt": "V_runeAt", "strcat": "V_strcat", "fnv32": "V_fnv32", "nonNilPayload": "V_nonNilPayload", "strOfSeq": "V_strOfSeq", "payloadRef": "V_payloadRef", "cap": "cap",
+	"concat": "V_concat", "sliceprefix": "V_sliceprefix", "runeCount": "V_runeCount", "first": "V_first", "second": "V_second", "runeAt": "V_runeAt", "strcat": "V_strcat", "fnv32": "V_fnv32", "nonNilPayload": "V_nonNilPayload", "strOfSeq": "V_strOfSeq", "payloadRef": "V_payloadRef", "cap": "cap", "sameref": "V_sameref", "comparable": "V_comparable",
+	"itoa": "V_itoa", "atoi": "V_atoi", "parseIntOk": "V_parseIntOk", "parseUintOk": "V_parseUintOk", "isDecimal": "V_isDecimal", "parseFloat": "V_parseFloat", "isDecInt": "V_isDecInt",
 }
 
 func translateSpecExpr(src string) (string, error) {
@@ -730,6 +740,15 @@ func V_fresh(x any) bool { return true }
 func V_elemsfresh(x any) bool { return true }
 func V_fresherThan(x any, y any) bool { return true }
 func V_sameslice(x, y any) bool { return true }
+func V_sameref(x, y any) bool { return true }
+func V_comparable(x any) bool { return true }
+func V_itoa(x int) string { return "" }
+func V_atoi(s string) int { return 0 }
+func V_parseIntOk(s string, bits int) bool { return true }
+func V_parseUintOk(s string, bits int) bool { return true }
+func V_isDecimal(s string) bool { return true }
+func V_isDecInt(s string) bool { return true }
+func V_parseFloat(s string) float64 { return 0 }
 func V_sliceprefix(x, y any) bool { return true }
 func V_runeCount(s string) int { return 0 }
 func V_fnv32(s string) int { return 0 }
